@@ -511,6 +511,13 @@ func condValue(v ssa.Value, env string, tracked *phiInfo) int {
 		}
 		return 0
 	}
+	// `nil == nil` (a variable just set to nil, after constant propagation into the test)
+	if b, ok := v.(*ssa.BinOp); ok && (b.Op == token.EQL || b.Op == token.NEQ) && IsNilConst(b.X) && IsNilConst(b.Y) {
+		if b.Op == token.EQL {
+			return 1
+		}
+		return 0
+	}
 	if tracked != nil && tracked.relevant[v] {
 		if _, isBin := v.(*ssa.BinOp); !isBin {
 			if b, ok := envGet(env, "N:"+v.Name()); ok {
@@ -618,11 +625,27 @@ func Reach(fn *ssa.Function, starts []Pt, o Opts) *Reached {
 	}
 	for _, p := range starts {
 		env := ""
-		// a start at the top of a block whose only predecessor ends in a nil test: the fact of the
-		// edge holds (the tested value is defined before the test)
-		if tracked != nil && p.I == 0 && len(p.B.Preds) == 1 {
-			pred := p.B.Preds[0]
-			if ifi, ok := pred.Instrs[len(pred.Instrs)-1].(*ssa.If); ok && pred.Succs[0] != pred.Succs[1] {
+		// the facts of the nil tests (and tracked conditions) whose edge dominates the start hold
+		// there: every path to the start took that edge after the tested value was last defined
+		if tracked != nil {
+			for blk := p.B; blk != nil; blk = blk.Idom() {
+				idom := blk.Idom()
+				if idom == nil || len(idom.Instrs) == 0 {
+					break
+				}
+				ifi, ok := idom.Instrs[len(idom.Instrs)-1].(*ssa.If)
+				if !ok || len(idom.Succs) != 2 || idom.Succs[0] == idom.Succs[1] {
+					continue
+				}
+				taken := -1
+				for i, sc := range idom.Succs {
+					if len(sc.Preds) == 1 && (sc == p.B || sc.Dominates(p.B)) {
+						taken = i
+					}
+				}
+				if taken < 0 {
+					continue
+				}
 				c := ifi.Cond
 				neg := false
 				for {
@@ -633,18 +656,22 @@ func Reach(fn *ssa.Function, starts []Pt, o Opts) *Reached {
 					break
 				}
 				if tv, pol, ok := nilTest(c); ok && tracked.relevant[tv] {
-					pol = pol != neg
-					val := 0
-					if (pred.Succs[0] == p.B) == pol {
-						val = 1
+					if _, known := envGet(env, "N:"+tv.Name()); !known {
+						pol = pol != neg
+						val := 0
+						if (taken == 0) == pol {
+							val = 1
+						}
+						env = envSet(env, map[string]int{"N:" + tv.Name(): val})
 					}
-					env = envSet(env, map[string]int{"N:" + tv.Name(): val})
 				} else if tracked.relevant[c] {
-					val := 0
-					if (pred.Succs[0] == p.B) == !neg {
-						val = 1
+					if _, known := envGet(env, "N:"+c.Name()); !known {
+						val := 0
+						if (taken == 0) == !neg {
+							val = 1
+						}
+						env = envSet(env, map[string]int{"N:" + c.Name(): val})
 					}
-					env = envSet(env, map[string]int{"N:" + c.Name(): val})
 				}
 			}
 		}
